@@ -1148,4 +1148,170 @@ Proof.
     apply same_function_pblock_kinetic; auto; now apply Hwf.
 Qed.
 
+(* ------------------------------------------------------------------ *)
+(* bridge: any linear functional that is right on products of two PRIMITIVES (B1) is right on
+   products of two evaluated functions, on the density and on the kinetic-energy density       *)
+(* ------------------------------------------------------------------ *)
+Lemma fsum_mul {A B} (f : A -> F) (g : B -> F) la lb :
+  fsum (map f la) * fsum (map g lb) = fsum (map (fun a => fsum (map (fun b => f a * g b) lb)) la).
+Proof.
+  transitivity (fsum (map (fun a => fsum (map g lb) * f a) la)).
+  - rewrite fsum_scale. ring.
+  - apply fsum_ext_in; intros a _. transitivity (f a * fsum (map g lb)); [ring|].
+    now rewrite <- fsum_scale.
+Qed.
+
+(* sum_ab P_ab f(d_a, d_b) *)
+Definition contract2 (P : list (list F)) (ds : list fdesc) (f : fdesc -> fdesc -> F) : F :=
+  fsum (map (fun pa => fsum (map (fun pb => fst pb * f (snd pa) (snd pb)) (combine (fst pa) ds)))
+            (combine P ds)).
+
+(* unit-weight primitive: value and derivative at a point *)
+Definition dval (o : comp) (g : gprim) (r : point (F:=F)) : F := term_val o r (mkT 1 g).
+
+Lemma term_val_w o r t : term_val o r t = t_w t * dval o (t_g t) r.
+Proof. unfold dval, term_val, t_x, t_y, t_z, t_a, t_c. cbn [t_w t_g]. ring. Qed.
+
+Definition q_ov (g1 g2 : gprim) (r : point (F:=F)) : F := dval (0,0,0)%nat g1 r * dval (0,0,0)%nat g2 r.
+Definition q_kin (g1 g2 : gprim) (r : point (F:=F)) : F :=
+  (1 / (1 + 1)) * ((dval (1,0,0)%nat g1 r * dval (1,0,0)%nat g2 r + dval (0,1,0)%nat g1 r * dval (0,1,0)%nat g2 r)
+                   + dval (0,0,1)%nat g1 r * dval (0,0,1)%nat g2 r).
+
+(* bilinear extension of a pointwise form of two primitives to descriptors *)
+Definition qq (q : gprim -> gprim -> point (F:=F) -> F) (d1 d2 : fdesc) (r : point (F:=F)) : F :=
+  fsum (map (fun t1 => fsum (map (fun t2 => t_w t1 * t_w t2 * q (t_g t1) (t_g t2) r) d2)) d1).
+
+Lemma deriv_product o d1 d2 r :
+  deriv_spec o d1 r * deriv_spec o d2 r
+  = fsum (map (fun t1 => fsum (map (fun t2 => t_w t1 * t_w t2 * (dval o (t_g t1) r * dval o (t_g t2) r)) d2)) d1).
+Proof.
+  unfold deriv_spec. rewrite fsum_mul. apply fsum_ext_in; intros t1 _. apply fsum_ext_in; intros t2 _.
+  rewrite (term_val_w o r t1), (term_val_w o r t2). ring.
+Qed.
+
+(* phi_1(r) phi_2(r) *)
+Lemma eval_product d1 d2 r : eval_spec d1 r * eval_spec d2 r = qq q_ov d1 d2 r.
+Proof. unfold eval_spec. rewrite deriv_product. reflexivity. Qed.
+
+(* 1/2 grad phi_1(r) . grad phi_2(r) *)
+Lemma grad_product d1 d2 r :
+  (1 / (1 + 1)) * ((deriv_spec (1,0,0)%nat d1 r * deriv_spec (1,0,0)%nat d2 r
+                    + deriv_spec (0,1,0)%nat d1 r * deriv_spec (0,1,0)%nat d2 r)
+                   + deriv_spec (0,0,1)%nat d1 r * deriv_spec (0,0,1)%nat d2 r)
+  = qq q_kin d1 d2 r.
+Proof.
+  rewrite !deriv_product. unfold qq. rewrite <- !fsum_add, <- fsum_scale. apply fsum_ext_in; intros t1 _.
+  rewrite <- !fsum_add, <- fsum_scale. apply fsum_ext_in; intros t2 _. unfold q_kin. ring.
+Qed.
+
+Section Bridge.
+Variable Lin : (point (F:=F) -> F) -> F.
+Hypothesis Lin_ext : forall f g, (forall r, f r = g r) -> Lin f = Lin g.
+Hypothesis Lin_add : forall f g, Lin (fun r => f r + g r) = Lin f + Lin g.
+Hypothesis Lin_scale : forall c f, Lin (fun r => c * f r) = c * Lin f.
+
+Lemma Lin_zero : Lin (fun _ => 0) = 0.
+Proof.
+  transitivity (Lin (fun r : point (F:=F) => 0 * 0)); [apply Lin_ext; intros; ring|].
+  rewrite (Lin_scale 0 (fun _ => 0)). ring.
+Qed.
+
+Lemma Lin_fsum {A} (h : A -> point (F:=F) -> F) l :
+  Lin (fun r => fsum (map (fun x => h x r) l)) = fsum (map (fun x => Lin (h x)) l).
+Proof.
+  induction l as [|a l IH]; cbn [map].
+  - apply Lin_zero.
+  - transitivity (Lin (fun r => h a r + fsum (map (fun x => h x r) l))).
+    + apply Lin_ext. intros r. apply fsum_cons.
+    + now rewrite Lin_add, IH, fsum_cons.
+Qed.
+
+Variable q : gprim -> gprim -> point (F:=F) -> F.
+Variable Ip : gprim -> gprim -> F.
+(* (B1) for one pair of primitives *)
+Hypothesis B1 : forall g1 g2, Lin (q g1 g2) = Ip g1 g2.
+
+Theorem lin_pairing d1 d2 : Lin (qq q d1 d2) = pair_spec Ip d1 d2.
+Proof.
+  unfold qq, pair_spec.
+  rewrite (Lin_fsum (fun t1 r => fsum (map (fun t2 => t_w t1 * t_w t2 * q (t_g t1) (t_g t2) r) d2))).
+  apply fsum_ext_in; intros t1 _.
+  rewrite (Lin_fsum (fun t2 r => t_w t1 * t_w t2 * q (t_g t1) (t_g t2) r)).
+  apply fsum_ext_in; intros t2 _.
+  now rewrite (Lin_scale (t_w t1 * t_w t2) (q (t_g t1) (t_g t2))), B1.
+Qed.
+
+(* trace identity: Lin of  sum_ab P_ab q(bf_a, bf_b)  =  sum_ab P_ab I(bf_a, bf_b)  (finite sums) *)
+Theorem lin_contract P ds :
+  Lin (fun r => contract2 P ds (fun da db => qq q da db r)) = contract2 P ds (pair_spec Ip).
+Proof.
+  unfold contract2.
+  rewrite (Lin_fsum (fun pa r => fsum (map (fun pb => fst pb * qq q (snd pa) (snd pb) r) (combine (fst pa) ds)))).
+  apply fsum_ext_in; intros pa _.
+  rewrite (Lin_fsum (fun pb r => fst pb * qq q (snd pa) (snd pb) r)).
+  apply fsum_ext_in; intros pb _.
+  now rewrite (Lin_scale (fst pb) (qq q (snd pa) (snd pb))), lin_pairing.
+Qed.
+End Bridge.
+
+Section BridgeInst.
+Variable Lin : (point (F:=F) -> F) -> F.
+Hypothesis Lin_ext : forall f g, (forall r, f r = g r) -> Lin f = Lin g.
+Hypothesis Lin_add : forall f g, Lin (fun r => f r + g r) = Lin f + Lin g.
+Hypothesis Lin_scale : forall c f, Lin (fun r => c * f r) = c * Lin f.
+
+(* "integral" of the product of two evaluated functions = the overlap-model entry of the same descriptors *)
+Theorem lin_of_product Ip : (forall g1 g2, Lin (q_ov g1 g2) = Ip g1 g2) ->
+  forall d1 d2, Lin (fun r => eval_spec d1 r * eval_spec d2 r) = pair_spec Ip d1 d2.
+Proof.
+  intros B1 d1 d2. rewrite <- (lin_pairing Lin Lin_ext Lin_add Lin_scale q_ov Ip B1).
+  apply Lin_ext. intros r. apply eval_product.
+Qed.
+
+(* "integral" of the density sum_ab P_ab phi_a phi_b = sum_ab P_ab S_ab = tr(P S) for symmetric P *)
+Theorem lin_of_density Ip : (forall g1 g2, Lin (q_ov g1 g2) = Ip g1 g2) ->
+  forall P ds, Lin (fun r => contract2 P ds (fun da db => eval_spec da r * eval_spec db r))
+               = contract2 P ds (pair_spec Ip).
+Proof.
+  intros B1 P ds. rewrite <- (lin_contract Lin Lin_ext Lin_add Lin_scale q_ov Ip B1).
+  apply Lin_ext. intros r. unfold contract2. apply fsum_ext_in; intros pa _.
+  apply fsum_ext_in; intros pb _. now rewrite eval_product.
+Qed.
+
+(* the same for half the products of gradients (kinetic matrix) and the positive-definite
+   kinetic-energy density (tr(P T)) *)
+Theorem lin_of_grad_product Ip : (forall g1 g2, Lin (q_kin g1 g2) = Ip g1 g2) ->
+  forall d1 d2,
+  Lin (fun r => (1 / (1 + 1)) * ((deriv_spec (1,0,0)%nat d1 r * deriv_spec (1,0,0)%nat d2 r
+                                  + deriv_spec (0,1,0)%nat d1 r * deriv_spec (0,1,0)%nat d2 r)
+                                 + deriv_spec (0,0,1)%nat d1 r * deriv_spec (0,0,1)%nat d2 r))
+  = pair_spec Ip d1 d2.
+Proof.
+  intros B1 d1 d2. rewrite <- (lin_pairing Lin Lin_ext Lin_add Lin_scale q_kin Ip B1).
+  apply Lin_ext. intros r. apply grad_product.
+Qed.
+
+Theorem lin_of_posdef_ked Ip : (forall g1 g2, Lin (q_kin g1 g2) = Ip g1 g2) ->
+  forall P ds,
+  Lin (fun r => contract2 P ds (fun da db =>
+         (1 / (1 + 1)) * ((deriv_spec (1,0,0)%nat da r * deriv_spec (1,0,0)%nat db r
+                           + deriv_spec (0,1,0)%nat da r * deriv_spec (0,1,0)%nat db r)
+                          + deriv_spec (0,0,1)%nat da r * deriv_spec (0,0,1)%nat db r)))
+  = contract2 P ds (pair_spec Ip).
+Proof.
+  intros B1 P ds. rewrite <- (lin_contract Lin Lin_ext Lin_add Lin_scale q_kin Ip B1).
+  apply Lin_ext. intros r. unfold contract2. apply fsum_ext_in; intros pa _.
+  apply fsum_ext_in; intros pb _. now rewrite grad_product.
+Qed.
+End BridgeInst.
+
+(* the hypotheses on Lin are satisfiable by a non-trivial functional: evaluation at a point *)
+Lemma bridge_hyps_example (r0 : point (F:=F)) (q : gprim -> gprim -> point (F:=F) -> F) :
+  let Lin := fun f : point (F:=F) -> F => f r0 in
+  (forall f g, (forall r, f r = g r) -> Lin f = Lin g) /\
+  (forall f g, Lin (fun r => f r + g r) = Lin f + Lin g) /\
+  (forall c f, Lin (fun r => c * f r) = c * Lin f) /\
+  (forall g1 g2, Lin (q g1 g2) = (fun g1 g2 => q g1 g2 r0) g1 g2).
+Proof. cbv zeta. repeat split; intros; auto. Qed.
+
 End P.
